@@ -145,6 +145,12 @@ const smtPrelude = `(set-option :produce-models true)
 (declare-const f64_zero F64)
 (declare-const opaque_zero Opaque)
 (define-fun nil_slice () Slice (mk-slice 0 0 0 0))
+(declare-fun at (Slice Int) Int)
+(assert (forall ((s Slice) (i Int)) (! (= (at s i) (+ (s-off s) i)) :pattern ((at s i)))))
+(declare-fun itrig (Int) Bool)
+(declare-fun itrig2 (Int) Bool)
+(assert (forall ((i Int)) (! (and (itrig i) (itrig2 (- i 1)) (itrig2 (+ i 1))) :pattern ((itrig i)))))
+(assert (forall ((i Int)) (! (itrig2 i) :pattern ((itrig2 i)))))
 (declare-fun strlen (Str) Int)
 (declare-fun strat (Str Int) Int)
 (declare-fun itype (Iface) Int)
